@@ -120,6 +120,33 @@ op_tables(json_t *args)
         jose_io_decref(p);
     }
 
+    /* what the PREP hooks make of {"alg": name}: implied kty / crv / bytes, and whether a
+     * different caller-supplied crv is refused */
+    {
+        json_t *prep = json_array();
+        for (const jose_hook_alg_t *a = jose_hook_alg_list(); a; a = a->next) {
+            json_t *t = json_pack("{s:s}", "alg", a->name);
+            json_t *t2 = json_pack("{s:s,s:s}", "alg", a->name, "crv", "X-other");
+            bool handled = false, ok = true, ok2 = true;
+            for (const jose_hook_jwk_t *j = jose_hook_jwk_list(); j; j = j->next) {
+                if (j->kind != JOSE_HOOK_JWK_KIND_PREP)
+                    continue;
+                if (j->prep.handles(NULL, t)) {
+                    handled = true;
+                    ok = ok && j->prep.execute(NULL, t);
+                    ok2 = ok2 && j->prep.execute(NULL, t2);
+                }
+            }
+            if (handled && ok)
+                json_array_append_new(prep, json_pack("{s:s,s:O?,s:O?,s:O?,s:b}", "alg", a->name,
+                    "kty", json_object_get(t, "kty"), "crv", json_object_get(t, "crv"),
+                    "bytes", json_object_get(t, "bytes"), "crv_strict", !ok2));
+            json_decref(t);
+            json_decref(t2);
+        }
+        json_object_set_new(res, "prep", prep);
+    }
+
     json_object_set_new(res, "algs", algs);
     json_object_set_new(res, "ktys", ktys);
     json_object_set_new(res, "opers", opers);
